@@ -11,6 +11,8 @@ use std::collections::hash_map::DefaultHasher;
 use std::collections::HashSet;
 use std::hash::{Hash, Hasher};
 
+static SMALL: std::sync::atomic::AtomicBool = std::sync::atomic::AtomicBool::new(false);
+
 fn h64<T: Hash>(t: &T) -> u64 {
     let mut h = DefaultHasher::new();
     t.hash(&mut h);
@@ -58,6 +60,10 @@ fn check_typed<A: Archetype>(rep: &mut Report, any: EntityAny, name: &str) {
                 rep.violate(&["C14"], "convert", "wrong error kind from try_from".into());
             }
         }
+    }
+    // under the interpreter only a sixth of the (slow) mismatch panics are provoked
+    if !matches && SMALL.load(std::sync::atomic::Ordering::Relaxed) && (any.raw().0 >> 8) % 6 != 1 {
+        return;
     }
     let p = guard(|| Entity::<A>::from_any(any));
     if p.is_err() == matches {
@@ -214,8 +220,9 @@ fn check_eq_hash(rep: &mut Report, rng: &mut Rng) {
     }
 }
 
-pub fn run_convert(seed: u64, shard: u64, n: usize) -> Report {
+pub fn run_convert(seed: u64, shard: u64, n: usize, small: bool) -> Report {
     let mut rep = Report::new();
+    SMALL.store(small, std::sync::atomic::Ordering::Relaxed);
     let mut rng = Rng::new(seed, shard);
     let declared = declared_ids();
     rep.add("declared_archetype_ids", declared.len() as u64);
@@ -239,9 +246,13 @@ pub fn run_convert(seed: u64, shard: u64, n: usize) -> Report {
     let positions = [0u32, 1, 2, 255, 256, (1 << 24) - 2, (1 << 24) - 1];
     let gens = [0u32, 1, 2, 1 << 31, u32::MAX - 1, u32::MAX];
     // boundary cross product with every id byte
-    for pos in positions {
-        for id in 0..=255u32 {
-            for g in gens {
+    // interpreter scale: declared ids plus a few undeclared ones instead of all 256
+    let ids: Vec<u32> = if small { declared.iter().map(|d| *d as u32).chain([2u32, 100, 253]).collect() } else { (0..=255u32).collect() };
+    let positions_b: Vec<u32> = if small { vec![1, (1 << 24) - 1] } else { positions.to_vec() };
+    let gens_b: Vec<u32> = if small { vec![0, 1, u32::MAX] } else { gens.to_vec() };
+    for pos in positions_b {
+        for id in ids.iter().copied() {
+            for g in gens_b.iter().copied() {
                 check_any(&mut rep, ((pos << 8) | id, g), &declared);
                 rep.seen("boundary_values", ((pos as u64) << 40) | (id as u64) << 32 | g as u64);
                 if rep.failed() {
@@ -268,7 +279,7 @@ pub fn run_convert(seed: u64, shard: u64, n: usize) -> Report {
     // direct handles: minted by real worlds at several (index, version) combinations
     let mut w = WMain::new();
     let mut directs: Vec<EntityDirectAny> = Vec::new();
-    for round in 0..6 {
+    for round in 0..(if small { 2 } else { 6 }) {
         let mut es = Vec::new();
         for i in 0..(3 + round) {
             let t = with_reg(|r| r.new_token());
@@ -305,7 +316,7 @@ pub fn run_convert(seed: u64, shard: u64, n: usize) -> Report {
             }
             Err(_) => rep.violate(&["C14", "C15"], "select", format!("SelectEntityDirect rejected {:?}", d)),
         }
-        for d2 in directs.iter() {
+        for d2 in directs.iter().take(if small { 4 } else { usize::MAX }) {
             let same = crate::forge::direct_parts(*d) == crate::forge::direct_parts(*d2);
             if (d == d2) != same || (same && h64(d) != h64(d2)) {
                 rep.violate(&["C14"], "eq", format!("direct handles {:?} / {:?}: == is {}", d, d2, d == d2));
